@@ -276,7 +276,7 @@ type treeFacts struct {
 	ids           int
 	bytesValues   int
 	optionalUnset bool
-	emptyBytesVal bool // a pcommon.Value of type Bytes with zero bytes (listed finding)
+	emptyBytesVal bool // a pcommon.Value of type Bytes with zero bytes
 	maxDepth      int  // deepest message nesting
 }
 
